@@ -42,6 +42,7 @@ type cfg struct {
 	peer    string // ipcp only: "static" | "pool" | "none"
 	maxConf int
 	maxTerm int // lcp only (IPCP/IPv6CP have a single MaxRetransmit)
+	maxFail int // lcp only: Max-Failure (Configure-Naks before Naks are converted to Rejects)
 }
 
 func (c cfg) String() string {
@@ -50,7 +51,7 @@ func (c cfg) String() string {
 		s += " peer=" + c.peer
 	}
 	if c.proto == "lcp" {
-		return fmt.Sprintf("%s max-configure=%d max-terminate=%d", s, c.maxConf, c.maxTerm)
+		return fmt.Sprintf("%s max-configure=%d max-terminate=%d max-failure=%d", s, c.maxConf, c.maxTerm, c.maxFail)
 	}
 	return fmt.Sprintf("%s max-retransmit=%d", s, c.maxConf)
 }
@@ -125,6 +126,10 @@ type sys struct {
 	assigned         net.IP // address assigned to the session (nil = none)
 	scanned          int    // sent[:scanned] already processed by the monitors
 	concurrent       bool   // Engine B concurrent phase: retransmission counting suspended
+	altAssigned      net.IP // Engine B concurrent phase: the address assigned when the phase began (a racing Up/Down may change it)
+	altValid         bool
+	nakRun           int    // Configure-Naks sent since the last Configure-Ack sent / Down (Max-Failure is about this run)
+	inflight         map[byte]int // identifiers of Configure-Acks currently being delivered (possibly not yet processed)
 	hist             []string
 	histState        []string // automaton state before each event
 	stuckOrigin      string   // "<state>+<event>@<state>" after which the automaton first was in a transient state with no timer
@@ -132,7 +137,7 @@ type sys struct {
 }
 
 func newSys(c cfg) *sys {
-	s := &sys{c: c, peerID: 100}
+	s := &sys{c: c, peerID: 100, inflight: map[byte]int{}}
 	lg := zap.NewNop()
 	send := func(proto uint16, data []byte) {
 		p := pkt{}
@@ -142,6 +147,7 @@ func newSys(c cfg) *sys {
 		}
 		s.mu.Lock()
 		s.sent = append(s.sent, p)
+		s.track(p)
 		s.mu.Unlock()
 	}
 	switch c.proto {
@@ -150,11 +156,13 @@ func newSys(c cfg) *sys {
 		lc.MagicNumber = localMagic
 		lc.MaxConfigure, lc.MaxTerminate, lc.MaxRetransmit = c.maxConf, c.maxTerm, c.maxConf
 		lc.RestartTimer = restart
+		lc.MaxFailure = c.maxFail
 		m, err := pppoe.NewLCPStateMachine(lc, send, lg)
 		if err != nil {
 			panic(err)
 		}
 		s.m, s.obj, s.state = m, m, func() string { return m.GetState().String() }
+		m.SetOnStateChange(func(_, n pppoe.LCPState) { s.entered(n.String()) })
 	case "ipcp":
 		ic := pppoe.DefaultIPCPConfig()
 		ic.LocalIP = localIP
@@ -170,6 +178,7 @@ func newSys(c cfg) *sys {
 		}
 		m := pppoe.NewIPCPStateMachine(ic, "sess-1", send, lg)
 		s.m, s.obj, s.state = m, m, func() string { return m.GetState().String() }
+		m.SetOnStateChange(func(_, n pppoe.IPCPState) { s.entered(n.String()) })
 	case "ipv6cp":
 		vc := pppoe.IPV6CPConfig{LocalInterfaceID: localIfID, MaxRetransmit: c.maxConf, RestartTimer: restart}
 		m, err := pppoe.NewIPV6CPStateMachine(vc, send, lg)
@@ -177,8 +186,51 @@ func newSys(c cfg) *sys {
 			panic(err)
 		}
 		s.m, s.obj, s.state = m, m, func() string { return m.GetState().String() }
+		m.SetOnStateChange(func(_, n pppoe.IPV6CPState) { s.entered(n.String()) })
 	}
 	return s
+}
+
+// track: P1 bookkeeping, done the moment a packet is handed to the send
+// callback (called with s.mu held). What the automaton has put on the wire is
+// the only source for "our most recent Configure-Request" and "our last reply".
+func (s *sys) track(p pkt) {
+	switch p.code {
+	case 1, 5, 7, 8, 9:
+		s.lastOrig, s.haveOrig = p.id, true
+	}
+	switch p.code {
+	case 1:
+		if s.haveCR {
+			s.prevCR, s.havePrev = s.lastCR, true
+		}
+		s.lastCR, s.lastCRData, s.haveCR = p.id, p.data, true
+		s.acked = false
+	case 2:
+		s.weAcked, s.nakRun = true, 0
+	case 3:
+		s.weAcked = false
+		s.nakRun++
+	case 4:
+		s.weAcked = false
+	}
+}
+
+// entered: This-Layer-Up observed through the state-change callback. P1 is
+// evaluated at the very moment the automaton reports Opened, so that an Opened
+// that is left again before the event (or the concurrent phase) ends is seen.
+// A Configure-Ack that is being delivered right now counts as received.
+func (s *sys) entered(state string) {
+	if state != "Opened" {
+		return
+	}
+	s.mu.Lock()
+	ack := s.acked || (s.haveCR && s.inflight[s.lastCR] > 0)
+	we, last := s.weAcked, s.lastCR
+	s.mu.Unlock()
+	if !(ack && we) {
+		s.v("P1-opened-without-agreement", "enter-Opened", "the automaton entered Opened but peer-acked-our-latest-request=%v (latest id %d) we-acked-peer's-latest-request=%v", ack, last, we)
+	}
 }
 
 func (s *sys) v(kind, site, f string, a ...any) {
@@ -212,7 +264,7 @@ func cat(bs ...[]byte) []byte     { return bytes.Join(bs, nil) }
 type reqSpec struct {
 	opts     []byte
 	nakTypes map[byte]bool // option types that are "offending: value not acceptable"
-	rejOpts  [][]byte      // encoded options that are "offending: not recognisable / not negotiable"
+	rejOpts  [][]byte      // encoded options that may be Rejected: not recognisable / not negotiable, and (Max-Failure, RFC 1661 4.6) value-unacceptable ones, always exactly as they stood in the request
 }
 
 func (s *sys) request(name string) reqSpec {
@@ -225,11 +277,11 @@ func (s *sys) request(name string) reqSpec {
 		case "RCR+pfc":
 			return reqSpec{opts: cat(okMRU, okMagic, opt(7), opt(8))}
 		case "RCR-nak": // MRU above the PPPoE ceiling
-			return reqSpec{opts: cat(opt(1, u16(2000)...), okMagic), nakTypes: map[byte]bool{1: true}}
+			return reqSpec{opts: cat(opt(1, u16(2000)...), okMagic), nakTypes: map[byte]bool{1: true}, rejOpts: [][]byte{opt(1, u16(2000)...)}}
 		case "RCR-rej": // unknown option type
 			return reqSpec{opts: cat(okMRU, opt(0x63, 1, 2)), rejOpts: [][]byte{opt(0x63, 1, 2)}}
 		case "RCR-mixed": // acceptable + value-unacceptable (magic 0) + unknown
-			return reqSpec{opts: cat(okMRU, opt(5, u32(0)...), opt(0x63, 1, 2)), nakTypes: map[byte]bool{5: true}, rejOpts: [][]byte{opt(0x63, 1, 2)}}
+			return reqSpec{opts: cat(okMRU, opt(5, u32(0)...), opt(0x63, 1, 2)), nakTypes: map[byte]bool{5: true}, rejOpts: [][]byte{opt(0x63, 1, 2), opt(5, u32(0)...)}}
 		}
 	case "ipcp":
 		// An IP-Address option is acceptable only if it names the address assigned
@@ -273,11 +325,11 @@ func (s *sys) request(name string) reqSpec {
 		case "RCR+":
 			return reqSpec{opts: opt(1, u64(0x0200000000000099)...)}
 		case "RCR-nak": // zero interface identifier must be Nak'd (RFC 5072 4.1)
-			return reqSpec{opts: opt(1, u64(0)...), nakTypes: map[byte]bool{1: true}}
+			return reqSpec{opts: opt(1, u64(0)...), nakTypes: map[byte]bool{1: true}, rejOpts: [][]byte{opt(1, u64(0)...)}}
 		case "RCR-rej":
 			return reqSpec{opts: cat(opt(1, u64(0x0200000000000099)...), opt(2, 0, 0x61)), rejOpts: [][]byte{opt(2, 0, 0x61)}}
 		case "RCR-mixed":
-			return reqSpec{opts: cat(opt(1, u64(0)...), opt(2, 0, 0x61)), nakTypes: map[byte]bool{1: true}, rejOpts: [][]byte{opt(2, 0, 0x61)}}
+			return reqSpec{opts: cat(opt(1, u64(0)...), opt(2, 0, 0x61)), nakTypes: map[byte]bool{1: true}, rejOpts: [][]byte{opt(2, 0, 0x61), opt(1, u64(0)...)}}
 		}
 	}
 	panic("unknown request " + name)
@@ -530,7 +582,7 @@ func (s *sys) Apply(op string) string {
 	wasOpened := s.m.IsOpened()
 	s.begin(e)
 	s.deliver(e)
-	s.end(e, wasOpened)
+	s.end([]event{e}, wasOpened)
 	return s.state()
 }
 
@@ -539,19 +591,39 @@ func (s *sys) begin(e event) {
 	if e.op != "TO" {
 		s.crRun, s.trRun = 0, 0
 	}
+	if e.op == "Down" {
+		s.nakRun = 0
+	}
+	if e.packet != nil && len(e.packet) > 0 && e.packet[0] == 2 {
+		s.mu.Lock()
+		s.inflight[e.id]++
+		s.mu.Unlock()
+	}
 }
 
 // end: run the monitors over everything sent since the last scan.
-func (s *sys) end(e event, wasOpened bool) {
+// es: the event(s) whose processing has just finished (one, or the events of an
+// Engine B concurrent phase).
+func (s *sys) end(es []event, wasOpened bool) {
 	s.refreshAssigned()
 	s.mu.Lock()
 	newPkts := append([]pkt(nil), s.sent[s.scanned:]...)
 	s.scanned = len(s.sent)
+	for _, e := range es {
+		if e.packet != nil && len(e.packet) > 0 && e.packet[0] == 2 && s.inflight[e.id] > 0 {
+			s.inflight[e.id]--
+		}
+	}
 	s.mu.Unlock()
-	s.scan(e, newPkts)
-	if e.matchCA && s.haveCR && e.id == s.lastCR {
-		// the Ack named the request that is (still) our most recent one
-		s.acked = true
+	s.scan(es, newPkts)
+	e := es[len(es)-1]
+	renego := false
+	for _, x := range es {
+		renego = renego || x.renego
+		if x.matchCA && s.haveCR && x.id == s.lastCR {
+			// the Ack named the request that is (still) our most recent one
+			s.acked = true
+		}
 	}
 	if st := s.state(); !restStates[st] && !s.timerArmed() {
 		if s.stuckOrigin == "" {
@@ -562,7 +634,7 @@ func (s *sys) end(e event, wasOpened bool) {
 	}
 	opened := s.m.IsOpened()
 	// P2
-	if wasOpened && e.renego && opened {
+	if wasOpened && renego && opened {
 		s.v("P2-stays-opened", e.op, "automaton was Opened, %s was delivered and it still reports Opened", e.op)
 	}
 	// P1
@@ -607,32 +679,42 @@ func (s *sys) maxTerm() int {
 
 var codeName = map[byte]string{1: "Configure-Request", 2: "Configure-Ack", 3: "Configure-Nak", 4: "Configure-Reject", 5: "Terminate-Request", 6: "Terminate-Ack", 7: "Code-Reject", 8: "Protocol-Reject", 9: "Echo-Request", 10: "Echo-Reply"}
 
-// scan applies P3, P4, P5 and the P1/P6 bookkeeping to packets sent while e was processed.
-func (s *sys) scan(e event, ps []pkt) {
-	cfgReplies := 0
+// scan applies P3, P4, P5 and the P6 counting to packets sent while the events
+// es were processed. Replies are matched to the event they answer by identifier
+// (the simulated peer never reuses one).
+func (s *sys) scan(es []event, ps []pkt) {
+	ops := make([]string, len(es))
+	for i, e := range es {
+		ops[i] = e.op
+	}
+	site := strings.Join(ops, "||")
+	cfgReplies := make([]int, len(es))
+	anyPacket := false
+	for _, e := range es {
+		anyPacket = anyPacket || e.packet != nil
+	}
 	for _, p := range ps {
 		switch p.code {
-		case 1, 5, 7, 8, 9:
-			s.lastOrig, s.haveOrig = p.id, true
-		}
-		switch p.code {
-		case 1: // our Configure-Request
-			if s.haveCR {
-				s.prevCR, s.havePrev = s.lastCR, true
-			}
-			s.lastCR, s.lastCRData, s.haveCR = p.id, p.data, true
-			s.acked = false
+		case 1:
 			s.crRun++
 		case 5:
 			s.trRun++
 		case 2, 3, 4, 6, 10: // replies
-			if e.packet == nil {
-				s.v("P3-reply-without-request", e.op, "%s id=%d sent while processing %s (no request in progress)", codeName[p.code], p.id, e.op)
+			if !anyPacket {
+				s.v("P3-reply-without-request", site, "%s id=%d sent while processing %s (no request in progress)", codeName[p.code], p.id, site)
 				continue
 			}
-			if p.id != e.id {
-				s.v("P3-identifier-not-echoed", e.op, "%s carries id %d, the packet being answered has id %d", codeName[p.code], p.id, e.id)
+			ei := -1
+			for i, e := range es {
+				if e.packet != nil && e.id == p.id {
+					ei = i
+				}
 			}
+			if ei < 0 {
+				s.v("P3-identifier-not-echoed", site, "%s carries id %d, which is not the identifier of the packet being answered (%s)", codeName[p.code], p.id, site)
+				continue
+			}
+			e := es[ei]
 			if p.code == 6 || p.code == 10 {
 				continue
 			}
@@ -640,17 +722,23 @@ func (s *sys) scan(e event, ps []pkt) {
 				s.v("P3-reply-without-request", e.op, "%s sent in answer to %s, which is not a Configure-Request", codeName[p.code], e.op)
 				continue
 			}
-			cfgReplies++
-			if cfgReplies > 1 {
+			cfgReplies[ei]++
+			if cfgReplies[ei] > 1 {
 				s.v("P4-multiple-replies", e.op, "more than one Configure-Ack/Nak/Reject sent for one Configure-Request")
 			}
-			s.weAcked = p.code == 2
 			s.checkReply(e, p)
 		}
 	}
-	if e.req != nil && cfgReplies == 0 {
+	if len(es) == 1 && es[0].req != nil && cfgReplies[0] == 0 {
 		s.weAcked = false // the peer's most recent request has not been answered at all
 	}
+}
+
+// addrAmbiguous: during a concurrent phase the assignment changed (pool address
+// drawn or given back by a racing Up/Down), so a request may legitimately have
+// been judged against either value.
+func (s *sys) addrAmbiguous() bool {
+	return s.c.proto == "ipcp" && s.altValid && !s.altAssigned.Equal(s.assigned)
 }
 
 func (s *sys) checkReply(e event, p pkt) {
@@ -662,7 +750,7 @@ func (s *sys) checkReply(e event, p pkt) {
 		if s.c.proto == "ipcp" { // P5
 			os, _ := splitOpts(p.data)
 			for _, o := range os {
-				if o[0] == 3 && len(o) == 6 && !net.IP(o[2:]).Equal(s.assigned) {
+				if o[0] == 3 && len(o) == 6 && !net.IP(o[2:]).Equal(s.assigned) && !(s.addrAmbiguous() && net.IP(o[2:]).Equal(s.altAssigned)) {
 					s.v("P5-acked-unassigned-address", e.op, "IPCP Configure-Ack for address %v, address assigned to the session: %v", net.IP(o[2:]), s.assigned)
 				}
 			}
@@ -673,7 +761,7 @@ func (s *sys) checkReply(e event, p pkt) {
 			s.v("P4-nak-malformed", e.op, "Configure-Nak with malformed or empty option list % x", p.data)
 		}
 		for _, o := range os {
-			if !e.req.nakTypes[o[0]] {
+			if !e.req.nakTypes[o[0]] && !(o[0] == 3 && s.addrAmbiguous()) {
 				s.v("P4-nak-lists-acceptable-option", e.op, "Configure-Nak lists option type %d which is not an offending option of the request % x", o[0], e.req.opts)
 			}
 		}
@@ -686,6 +774,9 @@ func (s *sys) checkReply(e event, p pkt) {
 			found := false
 			for _, r := range e.req.rejOpts {
 				found = found || bytes.Equal(o, r)
+			}
+			if o[0] == 3 && s.addrAmbiguous() && bytes.Contains(e.req.opts, o) {
+				found = true
 			}
 			if !found {
 				s.v("P4-reject-lists-acceptable-option", e.op, "Configure-Reject lists option % x which is not an offending option of the request % x", o, e.req.opts)
@@ -702,7 +793,9 @@ func (s *sys) checkReply(e event, p pkt) {
 //     by haveCR/havePrev and by "the last identifier the automaton put on the wire
 //     differs from that of its most recent Configure-Request" (all read off the
 //     sent frames). Sound below 256 packets per execution.
-//   failureCount (LCP): incremented on Configure-Nak, never read anywhere.
+//   failureCount (LCP): a private Nak counter; what Max-Failure is about, the run of
+//     Configure-Naks SENT, is counted by the monitor from the frames (nakRun,
+//     capped at Max-Failure+1) and is part of the fingerprint instead.
 var skipFields = map[string]bool{
 	"LCPStateMachine.identifier": true, "LCPStateMachine.lastIdentifier": true, "LCPStateMachine.failureCount": true,
 	"IPCPStateMachine.identifier": true, "IPCPStateMachine.lastIdentifier": true,
@@ -716,7 +809,18 @@ func (s *sys) coarse() string {
 	if s.pool != nil {
 		p = fmt.Sprintf("pool(cur=%v,next=%d)", s.pool.cur, s.pool.allocs%2)
 	}
-	return fmt.Sprintf("%s|armed=%v|cr=%v,%v,%v|acked=%v|weAcked=%v|assigned=%v|%s", d, s.timerArmed(), s.haveCR, s.havePrev, s.haveOrig && s.haveCR && s.lastOrig != s.lastCR, s.acked, s.weAcked, s.assigned != nil, p)
+	return fmt.Sprintf("%s|armed=%v|cr=%v,%v,%v|acked=%v|weAcked=%v|assigned=%v|%s", d, s.timerArmed(), s.haveCR, s.havePrev, s.haveOrig && s.haveCR && s.lastOrig != s.lastCR, s.acked, s.weAcked, s.assigned != nil, p) + fmt.Sprintf("|naks=%d", s.nakRunFP())
+}
+
+// nakRunFP: the run of Configure-Naks sent, as far as Max-Failure can tell runs apart.
+func (s *sys) nakRunFP() int {
+	if s.c.proto != "lcp" {
+		return 0
+	}
+	if s.nakRun > s.c.maxFail {
+		return s.c.maxFail + 1
+	}
+	return s.nakRun
 }
 
 func (s *sys) Fingerprint() string {
@@ -758,16 +862,19 @@ type seed struct {
 	path  []string
 	state string
 	class string // quick tier: one seed per class
+	haveCR bool
 }
 
 type reg struct {
 	mu     sync.Mutex
 	depth  map[string]map[string]int // config -> coarse fingerprint -> shortest depth seen
 	seeds  map[string]map[string]seed
-	active bool
+	// pairSeeds: config -> class (state, monitor flags, timer armed, retransmissions exhausted) -> shortest path; seeds of the two-thread scenarios
+	pairSeeds map[string]map[string]seed
+	active    bool
 }
 
-var registry = &reg{depth: map[string]map[string]int{}, seeds: map[string]map[string]seed{}}
+var registry = &reg{depth: map[string]map[string]int{}, seeds: map[string]map[string]seed{}, pairSeeds: map[string]map[string]seed{}}
 
 func (r *reg) note(s *sys) {
 	if !r.active {
@@ -779,12 +886,23 @@ func (r *reg) note(s *sys) {
 	r.mu.Lock()
 	defer r.mu.Unlock()
 	if r.depth[key] == nil {
-		r.depth[key], r.seeds[key] = map[string]int{}, map[string]seed{}
+		r.depth[key], r.seeds[key], r.pairSeeds[key] = map[string]int{}, map[string]seed{}, map[string]seed{}
+	}
+	better := func(old seed, ok bool) bool {
+		np := strings.Join(s.hist, " ")
+		return !ok || len(s.hist) < len(old.path) || (len(s.hist) == len(old.path) && np < strings.Join(old.path, " "))
+	}
+	pc := fmt.Sprintf("%s|%v,%v|armed=%v|%v", s.state(), s.acked, s.weAcked, armedNow, s.crRun+s.trRun >= s.c.maxConf)
+	if old, ok := r.pairSeeds[key][pc]; better(old, ok) {
+		r.pairSeeds[key][pc] = seed{path: append([]string(nil), s.hist...), state: s.state(), class: pc, haveCR: s.haveCR}
 	}
 	if d, ok := r.depth[key][c]; !ok || len(s.hist) < d {
 		r.depth[key][c] = len(s.hist)
 	}
 	if armedNow {
+		// one seed per state irrespective of the length of the Nak run (it only
+		// matters for Nak-answered requests, which the BFS covers for every run)
+		c := c[:strings.LastIndex(c, "|naks=")]
 		old, ok := r.seeds[key][c]
 		np := strings.Join(s.hist, " ")
 		if !ok || len(s.hist) < len(old.path) || (len(s.hist) == len(old.path) && np < strings.Join(old.path, " ")) {
@@ -798,15 +916,15 @@ func (r *reg) note(s *sys) {
 
 func configs(thorough bool) []cfg {
 	cs := []cfg{
-		{proto: "lcp", maxConf: 3, maxTerm: 3},
-		{proto: "lcp", maxConf: 3, maxTerm: 2},
+		{proto: "lcp", maxConf: 3, maxTerm: 3, maxFail: 1},
+		{proto: "lcp", maxConf: 3, maxTerm: 2, maxFail: 0},
 		{proto: "ipcp", peer: "static", maxConf: 3},
 		{proto: "ipcp", peer: "pool", maxConf: 3},
 		{proto: "ipcp", peer: "none", maxConf: 3},
 		{proto: "ipv6cp", maxConf: 3},
 	}
 	if thorough {
-		cs = append(cs, cfg{proto: "lcp", maxConf: 2, maxTerm: 3})
+		cs = append(cs, cfg{proto: "lcp", maxConf: 2, maxTerm: 3, maxFail: 2})
 	}
 	return cs
 }
